@@ -53,11 +53,40 @@ func minR(a, b *big.Rat) *big.Rat {
 	return b
 }
 func powR(a *big.Rat, n int) *big.Rat {
-	r := new(big.Rat).Set(one)
-	for i := 0; i < n; i++ {
-		r.Mul(r, a)
+	// a is in lowest terms, hence so is num^n / den^n
+	e := big.NewInt(int64(n))
+	num := new(big.Int).Exp(a.Num(), e, nil)
+	den := new(big.Int).Exp(a.Denom(), e, nil)
+	return new(big.Rat).SetFrac(num, den)
+}
+
+// fracTenths evaluates both Roundup readings on the exact non-negative fraction num/den
+// (not necessarily in lowest terms) without normalising it.
+func fracTenths(num, den *big.Int, ver int) int {
+	// ceil(10*num/den)
+	n10 := new(big.Int).Mul(num, big.NewInt(10))
+	q, m := new(big.Int).DivMod(n10, den, new(big.Int))
+	ceil := q.Int64()
+	if m.Sign() != 0 {
+		ceil++
 	}
-	return r
+	// Appendix A: ii = floor(num*1e5/den + 1/2) = floor((2*num*1e5 + den) / (2*den))
+	t := new(big.Int).Mul(num, big.NewInt(200000))
+	t.Add(t, den)
+	ii := new(big.Int).Div(t, new(big.Int).Mul(den, big.NewInt(2))).Int64()
+	var app int64
+	if ii%10000 == 0 {
+		app = ii / 10000
+	} else {
+		app = ii/10000 + 1
+	}
+	if ceil != app {
+		RoundupDisagreements.Add(1)
+	}
+	if ver == 0 {
+		return int(ceil)
+	}
+	return int(app)
 }
 
 // floorRat returns floor(x) as an int64.
@@ -239,12 +268,19 @@ var (
 
 func buildEnv() {
 	var expl [2][4][2][3][2]*big.Rat // [s][av][ac][pr][ui]
+	var explInt [2][4][2][3][2]*big.Int // expl * explDen
+	explDen := new(big.Int).Exp(big.NewInt(10), big.NewInt(12), nil)
 	for s := 0; s < 2; s++ {
 		for av := 0; av < 4; av++ {
 			for ac := 0; ac < 2; ac++ {
 				for pr := 0; pr < 3; pr++ {
 					for ui := 0; ui < 2; ui++ {
 						expl[s][av][ac][pr][ui] = mul(R("8.22"), R(v3B[0].Weights[av]), R(v3B[1].Weights[ac]), v3B[2].Weight(v3B[2].Codes[pr], s == 1), R(v3B[3].Weights[ui]))
+						scaled := mul(expl[s][av][ac][pr][ui], new(big.Rat).SetInt(explDen))
+						if !scaled.IsInt() {
+							panic("exploitability does not fit the fixed denominator")
+						}
+						explInt[s][av][ac][pr][ui] = new(big.Int).Set(scaled.Num())
 					}
 				}
 			}
@@ -266,17 +302,31 @@ func buildEnv() {
 							for ver := 0; ver < 2; ver++ {
 								for s := 0; s < 2; s++ {
 									imp := impactFromISS(miss, s == 1, ver, true)
+									// x = f*(imp + expl) with imp = p/q, expl = E/explDen, f = 108/100 or 1:
+									// x = fn*(p*explDen + E*q) / (fd*q*explDen), evaluated on integers.
+									p, q := imp.Num(), imp.Denom()
+									fn, fd := int64(1), int64(1)
+									if s == 1 {
+										fn, fd = 108, 100
+									}
+									den := new(big.Int).Mul(q, explDen)
+									den.Mul(den, big.NewInt(fd))
+									den10 := new(big.Int).Mul(den, big.NewInt(10))
+									pD := new(big.Int).Mul(p, explDen)
 									for av := 0; av < 4; av++ {
 										for ac := 0; ac < 2; ac++ {
 											for pr := 0; pr < 3; pr++ {
 												for ui := 0; ui < 2; ui++ {
 													k := 0
 													if imp.Sign() > 0 {
-														sum := add(imp, expl[s][av][ac][pr][ui])
-														if s == 1 {
-															sum = mul(R("1.08"), sum)
+														num := new(big.Int).Mul(explInt[s][av][ac][pr][ui], q)
+														num.Add(num, pD)
+														num.Mul(num, big.NewInt(fn))
+														if num.Cmp(den10) >= 0 { // min(x, 10)
+															k = fracTenths(big.NewInt(10), big.NewInt(1), ver)
+														} else {
+															k = fracTenths(num, den, ver)
 														}
-														k = roundupChecked(minR(sum, ten), ver)
 													}
 													envTab[ver][cr][ir][ar][c][i][a][s][av][ac][pr][ui] = int8(k)
 												}
